@@ -207,7 +207,9 @@ func FuzzScalarDecode_k256(f *testing.F)         { fuzzFields(f, "k256.Fq", "k25
 func FuzzScalarDecode_p256(f *testing.F)         { fuzzFields(f, "p256.Fq", "p256.Fp") }
 func FuzzScalarDecode_pasta(f *testing.F)        { fuzzFields(f, "pasta.Fq", "pasta.Fp") }
 func FuzzScalarDecode_edwards25519(f *testing.F) { fuzzFields(f, "ed25519.Fq", "ed25519.Fp") }
-func FuzzScalarDecode_bls12381(f *testing.F)     { fuzzFields(f, "bls12381.Fq", "bls12381.Fp", "bls12381.Fp2") }
+func FuzzScalarDecode_bls12381(f *testing.F) {
+	fuzzFields(f, "bls12381.Fq", "bls12381.Fp", "bls12381.Fp2")
+}
 
 // FuzzGtDecode: Gt.FromBytes under the GT clauses (length, coefficient range, no panic).
 func FuzzGtDecode_bls12381(f *testing.F) {
